@@ -13,7 +13,9 @@ MISMATCH_FN = "mismatch current_cfg"
 VIOLATES_FN = "violates"
 RULE = ("case = history of 3-12 transactions on a fresh chain, each delivered in its own block through "
         "BeginBlock/DeliverTx/EndBlock/Commit: regular Ethereum txs (1-3 MsgEthereumTx, nonce ok / gap / replay, gas "
-        "below intrinsic, leftover gas, tampered signature, extra non-eth message, Cosmos signature attached); eth leaves "
+        "below intrinsic, leftover gas (limits 30k-250k), gas prices in WEI that are mostly not whole unibi per gas "
+        "(legacy and dynamic-fee txs: odd prices, base fee + odd tip, odd caps, price below the base fee), several payers "
+        "in one tx, tampered signature, extra non-eth message, Cosmos signature attached); eth leaves "
         "whose unsigned From field names the tx signer / an exec grantee / the contract; Cosmos txs "
         "whose message trees (depth <= 5: authz MsgExec with self/grant authority, reflect.wasm Stargate dispatch, gov "
         "MsgSubmitProposal) carry a MsgEthereumTx, MsgGrant for the eth type, sends; Cosmos txs signed with an "
@@ -42,9 +44,13 @@ def _tree(n):
     k = n["k"]
     if k == "eth":
         frm = 29 if n.get("bad") else n.get("from", 0)
+        if n.get("cap"):
+            price = "(eff_dynamic %s %s)" % (_z(n["cap"]), _z(n.get("tip") or "0"))
+        else:
+            price = "(eff_legacy %s)" % _z(n.get("price") or "1000000000000")
         if n.get("as") is not None:
-            return "Leaf (EthTxAs %d %d %d %s (1)%%Z (1)%%Z)" % (n["as"], frm, n.get("nonce", 0), _z(n.get("gas", 0)))
-        return "Leaf (EthTx %d %d %s (1)%%Z (1)%%Z)" % (frm, n.get("nonce", 0), _z(n.get("gas", 0)))
+            return "Leaf (EthTxAs %d %d %d %s %s (1)%%Z)" % (n["as"], frm, n.get("nonce", 0), _z(n.get("gas", 0)), price)
+        return "Leaf (EthTx %d %d %s %s (1)%%Z)" % (frm, n.get("nonce", 0), _z(n.get("gas", 0)), price)
     if k == "send":
         return "Leaf (Send %d)" % n.get("from", 0)
     if k == "grant":
@@ -104,6 +110,10 @@ def nontrivial(rec):
             return True
         if ext == "evm" and len(tx["msgs"]) > 1:
             return True
+        for n, d, ws in es:
+            pr = int(n.get("cap") or n.get("price") or 10**12)
+            if pr % 10**12 != 0 and n.get("gas", 0) > 21000:
+                return True
     return False
 
 
@@ -115,6 +125,10 @@ def classify(rec):
             ks.append("eth-leaf depth=%d%s" % (min(d, 6), " under " + "/".join(ws[:3]) if ws else ""))
         if ob["fired"]:
             ks.append("fired=%d" % len(ob["fired"]))
+        for n, d, ws in _eths(tx):
+            if d == 0 and tx.get("ext") == "evm":
+                pr = int(n.get("cap") or n.get("price") or 10**12)
+                ks.append("evm-leaf price:%s %s gas:%s" % ("dynamic" if n.get("cap") else "legacy", "whole-unibi" if pr % 10**12 == 0 else "odd-wei", n.get("gas")))
     return ks
 
 
